@@ -13,6 +13,7 @@ use serde_json::json;
 
 mod packages;
 mod positions;
+mod probes;
 
 struct Ctx {
   urls: Vec<ModuleSpecifier>,
@@ -572,6 +573,10 @@ fn main() {
   let path = std::env::args().nth(1).expect("usage: verif_replay <world.json>");
   let input: Value =
     serde_json::from_str(&std::fs::read_to_string(path).unwrap()).unwrap();
+  if input["world"].get("build_probes").is_some() {
+    println!("{}", probes::run());
+    return;
+  }
   if input["world"].get("positions").is_some() {
     println!("{}", positions::run(&input));
     return;
